@@ -499,6 +499,7 @@ package server
 //@ func (*LockDB).wakeUpWaitLock
 //@   at call ProcessLockResultCommand assert C15.reply.before: implies(calls(ProcessLockData) >= 1, arg5 == ghost.valueBefore[ref(lockManager)])
 //@   inline
+//@   at call AddLock assert C10.wake.leader-only: self.status == STATE_LEADER
 //@   at call AddLock assert C01.wake.key,C04.wake.key: waitLock.manager == lockManager && waitLock.locked == 0 && (admissible(lockManager, waitLock) || unlimitedClass(lockManager, waitLock))
 //@   at call ProcessLockData assert C11.wake.recover: arg3 == !waitLock.timeouted
 //@   at call PriorityMutex.Unlock assert C03.wake.tombstone: waitLock.timeouted || waitLock.ackCount != 0xff
